@@ -593,6 +593,14 @@ class Interp:
             if all(isinstance(p, bool) for p in parts):
                 return all(parts)
             return z3.And([p if not isinstance(p, bool) else z3.BoolVal(p) for p in parts])
+        if isinstance(a, dict) and isinstance(b, dict):
+            # dict equality: same keys, equal values (keys of interpreted dicts are concrete hashables)
+            if set(a.keys()) != set(b.keys()):
+                return False
+            parts = [self.eq(a[k], b[k]) for k in a]
+            if all(isinstance(p_, bool) for p_ in parts):
+                return all(parts)
+            return z3.And([p_ if not isinstance(p_, bool) else z3.BoolVal(p_) for p_ in parts])
         if isinstance(a, ClassRef) and isinstance(b, ClassRef):
             return a.ci is b.ci
         if isinstance(a, FuncRef) and isinstance(b, FuncRef):
